@@ -127,13 +127,14 @@ pub struct ClientCfg {
     /// e.g. "http://s3.example.com:9000"
     pub endpoint: String,
     pub path_style: bool,
+    /// send unsigned requests (no credentials at all)
+    pub anonymous: bool,
 }
 
 pub fn sdk_config(cfg: &ClientCfg, http: Option<TapClient>) -> aws_sdk_s3::Config {
     let mut b = aws_sdk_s3::Config::builder()
         .behavior_version_latest()
         .region(Region::new(cfg.region.clone()))
-        .credentials_provider(Credentials::new(cfg.access_key.clone(), cfg.secret.clone(), None, None, "verif"))
         .endpoint_url(cfg.endpoint.clone())
         .force_path_style(cfg.path_style)
         .retry_config(aws_sdk_s3::config::retry::RetryConfig::disabled())
@@ -143,6 +144,10 @@ pub fn sdk_config(cfg: &ClientCfg, http: Option<TapClient>) -> aws_sdk_s3::Confi
         .timeout_config(aws_sdk_s3::config::timeout::TimeoutConfig::disabled());
     if let Some(h) = http {
         b = b.http_client(h);
+    }
+    // without a credentials provider the SDK falls back to its no-auth scheme (unsigned requests)
+    if !cfg.anonymous {
+        b = b.credentials_provider(Credentials::new(cfg.access_key.clone(), cfg.secret.clone(), None, None, "verif"));
     }
     b.build()
 }
